@@ -13,6 +13,17 @@ which trials are running right now.
 The reference is a plain book-keeping model written from the documentation of ``searcher_data`` and of
 the "Pending evaluations" section of ``HyperbandScheduler``; it never looks at scheduler internals.
 Reading the state never triggers model fitting (``state`` is a plain property).
+
+The property is about the data the surrogate is FITTED TO, which is not necessarily the searcher's state: the state
+transformer may pass it through a state converter (down-sampling to ``max_size_data_for_model``) and caches predictors.
+Therefore (a) every predictor the searcher itself obtains from the public ``state_transformer.fit`` during ``suggest`` is
+intercepted (instance-level read-only wrap) and (b) in about half of the schedules the model is additionally recomputed
+after every event with the public ``state_transformer.fit(skip_optimization=True)``; in both cases ``predictor.state`` — the
+data set the model was computed for — is compared with the same reference: equal to it while the number of cases is within
+``max_size_data_for_model`` (or no limit applies), otherwise a subset of it of at most that size which keeps data at the
+highest level (the documented down-sampling); its pending entries equal the live ones. Schedules run with the default limit
+(500; none for searcher_data="all") and with small limits; with "rungs_and_last" consecutive reports replace the last
+observation without changing the number of cases, and the model is recomputed between them.
 """
 import random
 
@@ -30,7 +41,9 @@ RULE = (
     "systems) x mode min/max (map_reward default / minus_x / c_minus_x) x rung system (geometric, linear, explicit list; "
     "max_t 4-30) x metric table (continuous, crossing, ties, constant; a restarted run reports slightly different values) x "
     "1-6 workers x arrival policy (uniform, round-robin, starve, burst, eager) x failure plan x early-completing scripts x "
-    "num_init_random (large: random suggestions; small: GP fitted incl. fantasising of pending entries). "
+    "num_init_random (large: random suggestions; small: GP fitted incl. fantasising of pending entries) x "
+    "max_size_data_for_model (default / explicit None / 3-25: down-sampling active) x model recomputed after every event or "
+    "only when the searcher does. "
     "Distinct = digest of the sequence of (event kind, #observations, #pending entries) after every event; non-trivial = "
     "at least one event with both observations and pending entries present and at least one trial that left the running set."
 )
@@ -50,7 +63,12 @@ ASSUMPTIONS = [
     "docstring: (pending_lifetime) a pending entry disappears only because its level was reported or its own trial left the "
     "running set; (pending_registered, asynchronous Hyperband only) a running trial below max_t has a pending entry at its next "
     "level (searcher_data != rungs) resp. at a later rung level or max_t (rungs)",
-    "the state read is searcher.state_transformer.state (the full data set; a state converter may subsample it for fitting)",
+    "two data sets are read: searcher.state_transformer.state (the searcher's full data set) and predictor.state of every "
+    "predictor returned by the public state_transformer.fit (what the surrogate is computed for); the harness' own fit calls "
+    "use skip_optimization=True, which may spare the searcher a later hyper-parameter refit but never changes the data",
+    "max_size_data_for_model in effect is taken from the documented defaults (500 unless searcher_data='all'; an explicit None "
+    "in search_options is dropped by check_and_merge_defaults and therefore also means the default); above the limit only "
+    "'subset of the reference, at most max_size cases, some case at the highest level kept' is claimed",
     "bounds: <= 6 workers, <= 40 trials, max_t <= 30, <= 140 events per schedule; NaN / infinite metrics are not generated",
 ]
 CASE_TIMEOUT = 240
@@ -96,6 +114,18 @@ def floors(tier):
         "decided:rereport_changes_nothing": 300 * k,
         "decided:pending_registered": 10000 * k,
         "pending_fantasised_in_fit": 20 * k,
+        "decided:model_data_equals_reference:rungs": 1500 * k,
+        "decided:model_data_equals_reference:all": 1000 * k,
+        "decided:model_data_equals_reference:rungs_and_last": 1500 * k,
+        "decided:model_data_subset_of_reference:rungs": 150 * k,
+        "decided:model_data_subset_of_reference:all": 300 * k,
+        "decided:model_data_subset_of_reference:rungs_and_last": 150 * k,
+        "decided:model_data_after_count_preserving_update": 400 * k,
+        "decided:model_data_after_count_preserving_update:state_converter_active": 400 * k,
+        "decided:model_pending_equals_state": 5000 * k,
+        "model_data_checked:searcher_fit": 500 * k,
+        "model_data_checked:probe": 4000 * k,
+        "model_data_checked:no_state_converter": 500 * k,
         "searcher:bayesopt": 60 * k,
         "searcher:hypertune": 30 * k,
         "searcher:dyhpo": 40 * k,
@@ -113,7 +143,7 @@ def expand(spec):
     typ = spec.get("type") or rng.choice(["stopping", "promotion", "dyhpo", "sync"])
     p = {"type": typ, "mode": rng.choice(["min", "max"])}
     p["searcher_data"] = spec.get("searcher_data") or rng.choice(["rungs", "all"] + ([] if typ == "sync" else ["rungs_and_last"]))
-    model_path = rng.random() < 0.36
+    model_path = rng.random() < 0.5
     p["model_path"] = model_path
     if typ == "sync":
         R = rng.randint(1, 4)
@@ -191,6 +221,20 @@ def expand(spec):
             script[str(tid)] = rng.randint(1, p["max_t"] - 1)
     p["script_len"] = script
     p["rerun_noise"] = 0.003
+    # what the surrogate is really fitted to: with the documented default of max_size_data_for_model (500 unless
+    # searcher_data == "all"), without a limit, and with a small limit (down-sampling active); in about half of the schedules
+    # the model is recomputed (public state_transformer.fit(skip_optimization=True)) after every event
+    ms = rng.choice(["default", "default", "default", "none", "small", "small"])
+    p["max_size"] = rng.randint(3, 25) if ms == "small" else ms
+    if ms == "small":
+        # Down-sampling to a handful of cases can remove all data of a resource level, which the acquisition step of the
+        # searchers does not survive (suggest raises: no candidates at the target resource / no GP for a rung level) — that is
+        # not what C14 is about. Schedules with a small limit therefore keep suggestions random; the model is computed (and
+        # its data inspected) by the harness' own fit calls only.
+        p["num_init_random"] = 100
+    p["probe_model"] = rng.random() < 0.5 or ms == "small"
+    if p["probe_model"] and p["searcher"] == "hypertune" and p["searcher_data"] != "rungs":
+        p["gp_model"] = "gp_multitask"  # see above: the independent-GPs model cannot fantasise pending entries off rung levels
     p.update({k: v for k, v in spec.items() if k != "seed" and not k.startswith("_")})
     return p
 
@@ -202,6 +246,17 @@ def min_map(p):
     name = p.get("map_reward") or "1_minus_x"
     const = 0.0 if name == "minus_x" else float(name[: len(name) - len("_minus_x")])
     return lambda x: const - x
+
+
+def effective_max_size(p):
+    """max_size_data_for_model in effect, from the documented defaults: 500 for the multi-fidelity GP searchers unless
+    searcher_data == 'all' (the synchronous scheduler does not pass searcher_data to the searcher: always 500); None = no
+    down-sampling (no state converter). An explicit None in search_options is dropped by check_and_merge_defaults (options
+    with value None are treated as not given), so it selects the default as well."""
+    ms = p.get("max_size", "default")
+    if ms in ("default", "none", None):
+        return None if (p["type"] != "sync" and p["searcher_data"] == "all") else 500
+    return int(ms)
 
 
 def close(a, b):
@@ -258,6 +313,11 @@ class Monitor:
         self.ended = 0
         self.both = False
         self.n_cmp = 0
+        # the data the surrogate model is fitted to (predictor.state)
+        self.limit = effective_max_size(p)   # None: no state converter (documented defaults)
+        self.probe_fn = None                 # set by run_case: recompute the model with the public fit(skip_optimization=True)
+        self.model_prev = None               # (#cases, set of (trial, level)) of the reference at the previous model comparison
+        self.n_model_cmp = 0
 
     # -- book keeping from what the harness itself sent
     def _record_report(self, t, level, value, decision):
@@ -402,6 +462,116 @@ class Monitor:
         if n_obs and seen:
             self.both = True
         self.sig.append((kind, n_obs, len(seen)))
+        # ---------------- recompute the model and look at the data it is fitted to
+        if self.probe_fn is not None and n_obs >= 1 and kind != "initial":
+            try:
+                predictor = self.probe_fn()
+            except Exception as e:  # noqa: BLE001 - the harness' own extra call: never a verdict
+                o.inconclusive("model_probe_raised:" + type(e).__name__)
+                return
+            o.count("model_probe_calls")
+            self.check_model(predictor, "probe_after_" + kind)
+
+    @staticmethod
+    def _obs_of(evals):
+        out = {}
+        for ev in evals:
+            m = ev.metrics.get(TARGET)
+            if isinstance(m, dict) and m:
+                d = out.setdefault(ev.trial_id, {})
+                for k_, v in m.items():
+                    try:
+                        d[int(k_)] = v
+                    except (TypeError, ValueError):
+                        d[k_] = v
+        return out
+
+    def check_model(self, predictor, origin):
+        """Compare predictor.state — the data set the surrogate model was computed for — with the reference. Trials whose
+        entry in the searcher's own state already deviates from the reference are judged by check() and skipped here."""
+        o = self.o
+        pstate = getattr(predictor, "state", None)
+        if pstate is None or not hasattr(pstate, "trials_evaluations"):
+            o.inconclusive("predictor_state_not_available")
+            return
+        try:
+            st = self.get_state()
+            actual = self._obs_of(st.trials_evaluations)
+            model = self._obs_of(pstate.trials_evaluations)
+            pend_state = sorted((x.trial_id, x.resource) for x in st.pending_evaluations)
+            pend_model = sorted((x.trial_id, x.resource) for x in pstate.pending_evaluations)
+        except Exception as e:  # noqa: BLE001
+            o.inconclusive("model_state_not_readable:" + type(e).__name__)
+            return
+        self.n_model_cmp += 1
+        ref = {t: e for t, e in self.exp.items() if e}
+        deviating = {t for t in set(actual) | set(ref) if actual.get(t, {}) != ref.get(t, {})}
+        n_state = sum(len(v) for v in actual.values())
+        n_model = sum(len(v) for v in model.values())
+        conv = "state_converter_active" if self.limit is not None else "no_state_converter"
+        keys = frozenset((t, lv) for t, e in ref.items() for lv in e)
+        cpu = self.model_prev is not None and self.model_prev[0] == len(keys) and self.model_prev[1] != keys
+        self.model_prev = (len(keys), keys)
+        base = {"origin": origin, "max_size_data_for_model": self.limit, "cases_in_searcher_state": n_state, "cases_in_model_data": n_model,
+                "reference_changed_without_changing_its_size_since_last_model": cpu}
+        subsampled = self.limit is not None and n_state > self.limit
+
+        def judge(t, lv, v):
+            """one case of the model data against the reference"""
+            e = ref.get(t, {})
+            if lv in e:
+                if close(v, e[lv]):
+                    return None
+                return "model_data_value_differs_from_reported_metric"
+            if lv in self.first.get(t, {}):
+                return "model_data_contains_removed_observation" if self.policy == "rungs_and_last" else "model_data_contains_unselected_observation"
+            return "model_data_contains_unreported_observation"
+
+        bad = False
+        for t in sorted(set(model) | set(ref)):
+            if t in deviating:
+                o.count("model_data_trial_skipped:searcher_state_deviates")
+                continue
+            m, e = model.get(t, {}), ref.get(t, {})
+            if m == e:
+                continue
+            for lv in sorted(m, key=str):
+                what = judge(t, lv, m[lv])
+                if what is not None:
+                    bad = True
+                    self._violate("model_data_is_reported_data", f"{what}:{conv}",
+                                  dict(base, trial=t, level=lv, value=m[lv], model_levels=sorted(m, key=str), reference_levels=sorted(e),
+                                       reported_levels=sorted(self.first.get(t, {}))), (t, lv))
+            if not subsampled:
+                for lv in sorted(set(e) - set(m)):
+                    bad = True
+                    self._violate("model_data_is_reported_data", f"model_data_lacks_observation:{conv}",
+                                  dict(base, trial=t, level=lv, model_levels=sorted(m, key=str), reference_levels=sorted(e)), (t, lv))
+        if subsampled:
+            # documented down-sampling: at most max_size cases, a subset of the data, data at the highest level is kept
+            if n_model > self.limit:
+                bad = True
+                self._violate("model_data_down_sampling", "model_data_exceeds_max_size_data_for_model", base, ())
+            top = max((lv for e in actual.values() for lv in e if isinstance(lv, int)), default=None)
+            if top is not None and not any(top in m for m in model.values()):
+                bad = True
+                self._violate("model_data_down_sampling", "model_data_without_any_case_at_highest_level", dict(base, highest_level=top), ())
+            if n_model < self.limit:
+                o.count("model_data_smaller_than_limit")
+            o.count(f"decided:model_data_subset_of_reference:{self.policy}")
+        else:
+            o.count(f"decided:model_data_equals_reference:{self.policy}")
+        if pend_state != pend_model:
+            bad = True
+            self._violate("model_pending_is_live_pending", f"model_pending_differs_from_searcher_state:{conv}",
+                          dict(base, pending_state=pend_state[:30], pending_model=pend_model[:30]), ())
+        o.count("decided:model_pending_equals_state")
+        if cpu:
+            o.count("decided:model_data_after_count_preserving_update")
+            o.count(f"decided:model_data_after_count_preserving_update:{conv}")
+        o.count("model_data_checked:" + ("probe" if origin.startswith("probe") else "searcher_fit"))
+        o.count("model_data_checked:" + conv)
+        return not bad
 
     def _diagnose_obs(self, tid, a, e, kind, tid_ev, status):
         p = self.p
@@ -500,6 +670,8 @@ def build(p, space, seed):
         so["map_reward"] = p["map_reward"]
     if p.get("gp_model"):
         so["model"] = p["gp_model"]
+    if p.get("max_size", "default") != "default":
+        so["max_size_data_for_model"] = None if p["max_size"] == "none" else int(p["max_size"])
     if p["type"] == "sync":
         from syne_tune.optimizer.schedulers import synchronous as sy
 
@@ -565,6 +737,8 @@ def run_case(spec):
     stf = inner.state_transformer
     orig_fit = stf.fit
 
+    mon_holder = {}
+
     def fit(**kwargs):
         fits[0] += 1
         try:
@@ -572,7 +746,12 @@ def run_case(spec):
                 fits[1] += 1
         except Exception:  # noqa: BLE001
             pass
-        return orig_fit(**kwargs)
+        predictor = orig_fit(**kwargs)
+        # the predictor the searcher itself just asked for: what is its model fitted to?
+        m_ = mon_holder.get("mon")
+        if m_ is not None:
+            m_.check_model(predictor, "searcher_fit")
+        return predictor
 
     stf.fit = fit
 
@@ -585,6 +764,10 @@ def run_case(spec):
         return curves(trial_id, level) + noise * (t.run_no if t is not None else 0)
 
     mon = Monitor(o, p, get_state, ref_levels, brackets_of)
+    mon_holder["mon"] = mon
+    if p.get("probe_model"):
+        mon.probe_fn = lambda: orig_fit(skip_optimization=True)
+        o.count("schedules_with_model_probe")
     vp = {
         "n_workers": p["n_workers"], "max_t": p["max_t"], "metric": "loss", "resource_attr": "epoch",
         "policy": p["policy"], "seed": spec["seed"] + 2, "max_trials": p["max_trials"],
@@ -625,6 +808,7 @@ def run_case(spec):
                                          "rung_system_per_bracket", "curves", "n_workers", "policy", "use_mra", "checkpointing",
                                          "num_init_random", "fail", "script_len")},
         "rung_levels": ref_levels, "events": len(vt.events), "state_comparisons": mon.n_cmp, "gp_fit_calls": fits[0],
+        "model_data_comparisons": mon.n_model_cmp, "max_size_data_for_model": mon.limit, "probe_model": bool(p.get("probe_model")),
         "first_events": [list(e) for e in vt.events[:14]], "trace": mon.sig[:14],
     }
     return o.result()
